@@ -307,13 +307,28 @@ func init() {
 		s, _ := concStr(args[0])
 		return p.opaqueErr("errorf:" + s)
 	})
-	for _, n := range []string{"fmt.Sprintf", "fmt.Sprint", "fmt.Sprintln"} {
+	reg("fmt.Sprintf", func(p *Path, th *thread, caller *frame, pos token.Pos, fn *ssa.Function, args []Value) Value {
+		format, _ := concStr(args[0])
+		// real formatting when every operand is concrete (Stringer / error methods are run from their SSA)
+		if va, ok := args[1].(SliceVal); ok {
+			goArgs := make([]interface{}, 0, va.N)
+			all := true
+			for i := 0; i < va.N && all; i++ {
+				g, ok := p.toGo(th, caller, pos, va.Back[i])
+				if !ok {
+					all = false
+				}
+				goArgs = append(goArgs, g)
+			}
+			if all {
+				return mkStr(fmt.Sprintf(format, goArgs...))
+			}
+		}
+		return mkStr("sprintf:" + format)
+	})
+	for _, n := range []string{"fmt.Sprint", "fmt.Sprintln"} {
 		n := n
 		reg(n, func(p *Path, th *thread, caller *frame, pos token.Pos, fn *ssa.Function, args []Value) Value {
-			if sv, ok := args[0].(*StrVal); ok {
-				s, _ := sv.Concrete()
-				return mkStr("sprintf:" + s)
-			}
 			return mkStr("sprint")
 		})
 	}
@@ -628,4 +643,62 @@ func init() {
 		}
 		return SliceVal{Back: out, N: len(out), Nil: false}
 	})
+}
+
+// toGo converts a concrete interpreter value (as passed in a ...interface{} list) to a Go value for formatting.
+func (p *Path) toGo(th *thread, fr *frame, pos token.Pos, v Value) (interface{}, bool) {
+	iv, ok := v.(IfaceVal)
+	if !ok {
+		return nil, false
+	}
+	if iv.T == nil {
+		return nil, true
+	}
+	for _, mname := range []string{"Error", "String"} {
+		sel := p.ex.prog.MethodSets.MethodSet(iv.T).Lookup(nil, mname)
+		if sel == nil {
+			continue
+		}
+		if m := p.ex.prog.MethodValue(sel); m != nil && m.Signature.Params().Len() == 0 && m.Signature.Results().Len() == 1 && isString(m.Signature.Results().At(0).Type()) {
+			if name := m.String(); intrinsics[name] != nil || m.Blocks != nil {
+				r, ok := p.callSSA(th, fr, pos, m, []Value{iv.V}, nil).(*StrVal)
+				if !ok {
+					return nil, false
+				}
+				s, c := r.Concrete()
+				return s, c
+			}
+		}
+	}
+	switch x := iv.V.(type) {
+	case *Term:
+		if !x.IsConst() {
+			return nil, false
+		}
+		w, signed, _ := intInfo(iv.T)
+		if w == 0 {
+			return x.Val != 0, true
+		}
+		if signed {
+			return sx(x.Val, x.W), true
+		}
+		return x.Val, true
+	case *StrVal:
+		s, c := x.Concrete()
+		return s, c
+	case SliceVal:
+		if x.Nil {
+			return []byte(nil), true
+		}
+		b := make([]byte, x.N)
+		for i := 0; i < x.N; i++ {
+			t, ok := x.Back[i].(*Term)
+			if !ok || !t.IsConst() || t.W != 8 {
+				return nil, false
+			}
+			b[i] = byte(t.Val)
+		}
+		return b, true
+	}
+	return nil, false
 }
